@@ -548,14 +548,20 @@ class PanicAnalysis:
                 bads = []
                 descs = []
                 ok = True
+                gen = callee.raw.get("generics") or []
+                targs = t.get("targs") or []
+                tmap = dict(zip(gen, targs)) if gen and len(gen) == len(targs) else None
+                if tmap:
+                    # only concrete types are worth substituting
+                    tmap = {k_: v_ for k_, v_ in tmap.items() if rs.type_size(v_) is not None} or None
                 for (csite, cexp) in cs.exports:
                     for bad in cexp:
                         nb = []
                         for l in bad:
                             if isinstance(l, Lin):
-                                sl = _subst_lin(l, args, rs)
+                                sl = _subst_lin(l, args, rs, tmap)
                             else:
-                                sl = _subst_lin(l[1], args, rs)
+                                sl = _subst_lin(l[1], args, rs, tmap)
                                 if sl is not None:
                                     lo, hi = rs.lin_interval(sl)
                                     if lo >= 0:
@@ -761,9 +767,12 @@ def _arg_only(l, closure=False):
     return True
 
 
-def _subst_expr(e, args):
+def _subst_expr(e, args, tmap=None):
     if not isinstance(e, tuple) or not e:
         return e
+    if tmap and e[0] == "call" and e[1] in ("std::mem::size_of", "std::mem::align_of") and len(e) > 3 \
+            and isinstance(e[3], tuple) and e[3] and e[3][0] == "targs":
+        return ("call", e[1], e[2], ("targs", tuple(tmap.get(x, x) for x in e[3][1])))
     if e[0] == "arg":
         if e[1] < len(args):
             return args[e[1]]
@@ -772,15 +781,15 @@ def _subst_expr(e, args):
         if e[0] in ("c", "k", "fn", "var"):
             return e
         if e[0] == "call":
-            return ("call", e[1], tuple(_subst_expr(a, args) for a in e[2])) + tuple(e[3:])
-        return simplify((e[0],) + tuple(_subst_expr(x, args) if isinstance(x, tuple) else x for x in e[1:]))
-    return tuple(_subst_expr(x, args) if isinstance(x, tuple) else x for x in e)
+            return ("call", e[1], tuple(_subst_expr(a, args, tmap) for a in e[2])) + tuple(e[3:])
+        return simplify((e[0],) + tuple(_subst_expr(x, args, tmap) if isinstance(x, tuple) else x for x in e[1:]))
+    return tuple(_subst_expr(x, args, tmap) if isinstance(x, tuple) else x for x in e)
 
 
-def _subst_lin(l, args, rs):
+def _subst_lin(l, args, rs, tmap=None):
     out = Lin.const(l.k)
     for a, c in l.co.items():
-        e = _subst_expr(a, args)
+        e = _subst_expr(a, args, tmap)
         if e[0] == "len":
             le = rs.len_lin(e[1])
         else:
